@@ -1153,6 +1153,6 @@ func ruleL7(r *Run) {
 		})
 		nChecked++
 	})
-	r.cur = "L7"
+
 	r.Ok("functions with slice parameters scanned", 0, fmt.Sprintf("%d functions, no append into parameter storage", nChecked))
 }
